@@ -47,6 +47,7 @@ def run(ctx: Ctx, rep: Report) -> None:
     rep.rule("C05-R5", "API arguments reach the PDU fields (decided by C07-R1, C02-R3, C04-R1)", floor=1)
     rep.rule("C05-R6", "msgFlags state the credentials' security level and mark confirmed-class PDUs reportable (shared with C10-R1)", floor=5)
     rep.rule("C05-R8", "the v3 security parameters emitted carry the discovered authoritative engine id, boots, time and the user name (shared with C10-R2)", floor=3)
+    rep.rule("C05-R10", "typed SET values reach the wire unchanged: Counter32/64 wrap per RFC, every in-range value of an application type is stored as given (shared with C17-R1)", floor=10)
     rep.rule("C05-R9", "v3 requests: encrypt, then splice the digest into otherwise unchanged security parameters; with privacy the scoped PDU travels as the plug-in's ciphertext under the agent-localised key (shared with C10-R3, C11-R1/R2/R4)", floor=6)
     rep.rule("C05-R7", "the version spoken is that of the current credentials: a change of credential family installs the matching message-processing model (shared with C18-R4)", floor=3)
     rep.assumptions += [
@@ -295,6 +296,8 @@ def run(ctx: Ctx, rep: Report) -> None:
     rep.adopt_rules(sub, "C05-R8", ["C10-R2"])
     rep.adopt_rules(sub, "C05-R9", ["C10-R3"])
     rep.adopt_rules(ctx.sub_run("c11", rep), "C05-R9", ["C11-R1", "C11-R2", "C11-R4"])
+    # the caller's typed SET values: the application type constructors store every in-range value as given
+    rep.adopt_rules(ctx.sub_run("c17", rep), "C05-R10", ["C17-R1"])
     sub = ctx.sub_run("c18", rep)
     rep.adopt_rules(sub, "C05-R7", ["C18-R4"])
 
@@ -309,11 +312,27 @@ def pdu_body_by_evaluation(ctx: Ctx, rep: Report, enc: FuncInfo, pdu: ClassInfo,
 
     vb_cls = ctx.u.cls("puresnmp.varbind:VarBind")
     verdicts = []
-    for rid, status, index, count in ((7, 0, 0, 0), (4711, 0, 0, 1), (2**31 - 1, 5, 2, 3)):
+
+    def typed_values() -> List[Any]:
+        """One value per SNMP type at the top of its range: an encoder must take them all (SET values, GetResponses)."""
+        out: List[Any] = []
+        for key, val in (("x690.types:Integer", -(2**31)), ("x690.types:Integer", 2**31 - 1), ("puresnmp.types:Counter", 2**32 - 1), ("puresnmp.types:Gauge", 2**32 - 1), ("puresnmp.types:TimeTicks", 2**32 - 1), ("puresnmp.types:Counter64", 2**64 - 1), ("puresnmp.types:Counter64", 2**32), ("x690.types:OctetString", b""), ("x690.types:Null", None)):
+            cls_ = ctx.u.classes.get(key)
+            if cls_ is None:
+                continue
+            inst = Instance(cls_, [], {})
+            inst.attrs.update(value=val, pyvalue=val)
+            out.append(inst)
+        return out
+
+    tv = typed_values()
+    for rid, status, index, count in ((7, 0, 0, 0), (4711, 0, 0, 1), (2**31 - 1, 5, 2, 3), (9, 0, 0, -1)):
         binds = []
+        typed = count < 0
+        count = len(tv) if typed else count
         for i in range(count):
             vb = Instance(vb_cls, [], {})
-            vb.attrs.update(oid=Sym(f"oid{i + 1}"), value=Sym(f"value{i + 1}"))
+            vb.attrs.update(oid=Sym(f"oid{i + 1}"), value=tv[i] if typed else Sym(f"value{i + 1}"))
             vb.attrs["__items__"] = [vb.attrs["oid"], vb.attrs["value"]]
             binds.append(vb)
         cont = Instance(content, [], {})
